@@ -9,4 +9,5 @@ CONSTANTS
   MaxBuilds = 0
   Variant = "chained"
   Fuel = 0
+  Styles <- QuotedOnly
   MaxHist = 0
